@@ -29,11 +29,11 @@ FILE_RUN = 'v5_7_0'
 WS_NATURAL = ['calib_unset', 'resolve_unset', 'flist_missing', 'flist_truncated', 'rescore_exists', 'score_raises', 'score_exits',
               'score_real', 'via_window_read+calib_unset', 'via_window_read+flist_missing', 'via_window_read+score_raises',
               'via_window_read+calib_unset+flist_missing', 'via_window_read+calib_unset+score_raises',
-              'via_window_read+calib_empty+score_raises',
+              'via_window_read+calib_empty+score_raises', 'rescore_is_directory',
               'calib_empty', 'calib_empty+resolve_unset', 'calib_empty+flist_missing', 'calib_empty+score_raises']
 TI_NATURAL = ['par_missing', 'kw_missing_object', 'kw_missing_run1d', 'kw_missing_minuse', 'kw_nonnumeric_niter',
               'kw_nonnumeric_wavemin', 'hmf_kw_missing_epsilon', 'hmf_kw_bad_nonnegative', 'spplate_missing', 'fibre_absent',
-              'unknown_method', 'dump_unwritable', 'no_eigenobj_table', 'redux_unset', 'run2d_integer']
+              'unknown_method', 'dump_unwritable', 'no_eigenobj_table', 'redux_unset', 'run2d_integer', 'no_matplotlib']
 NL_WS, NC_WS = 40, 24            # upper bounds on line events / direct calls of window_score (checked against the recording)
 NL_TI, NC_TI = 560, 320          # ... of template_input + _template_input + template_metadata
 
@@ -377,6 +377,9 @@ class C20(Check):
                         f.truncate(1000)
                 elif part == 'rescore_exists':
                     shutil.copy(os.path.join(d, 'window_flist.fits'), os.path.join(d, 'window_flist_rescore.fits'))
+                elif part == 'rescore_is_directory':
+                    # the name of the output file is taken by something that can be neither written nor removed as a file
+                    os.makedirs(os.path.join(d, 'window_flist_rescore.fits'))
                 elif part == 'score_raises':
                     self._stub.fail = True
                 elif part == 'score_exits':
@@ -437,7 +440,16 @@ class C20(Check):
                 func = factory(nat, 'run')
                 if nat == 'redux_unset':
                     os.environ.pop('BOSS_SPECTRO_REDUX', None)      # only for the faulted run, never for the recording run
-                before, after, events, exc, fp = self._monitored(self.ti_codes, func, fault)
+                saved_plt = None
+                if nat == 'no_matplotlib' and hasattr(S1, 'plt'):
+                    # an installation without matplotlib: the module's import guard then leaves no global `plt` behind
+                    saved_plt = S1.plt
+                    del S1.plt
+                try:
+                    before, after, events, exc, fp = self._monitored(self.ti_codes, func, fault)
+                finally:
+                    if saved_plt is not None:
+                        S1.plt = saved_plt
                 ev = self._verdict(out, before, after, events, ['RUN2D', 'RUN1D'],
                                    'template_input(method=%s, init=%s) fault=%s' % (cfg['method'], cfg['init'], fault), fp)
                 self._account(out, case, fault, exc, fp, ev, before, ['RUN2D', 'RUN1D'], rec)
